@@ -17,12 +17,15 @@ def worker(chk, pkg, index):
         if pr.gen_rc != 0:
             raise build.HarnessError("yardl rejected a packed package %s: %s" % (pkg.namespace, pr.gen_err[-600:]))
         if pr.cpp is None:
-            chk.extra["packages_not_compiled"] = 1
-            chk.extra["compile_errors"] = ["%s: %s" % (pkg.namespace, list(pr.cpp_errors.values())[0][:400])]
-            chk.exhaustive = False
+            first = list(pr.cpp_errors.values())[0]
+            chk.fail("cpp-does-not-compile/%s" % pkg.namespace, "generated C++ of an accepted package does not compile: %s" % first[:500],
+                     {"namespace": pkg.namespace, "errors": {k: v[:2000] for k, v in pr.cpp_errors.items()}})
             return
         eng = rtengine.Engine(chk, pr, k, max_exec=12 if tier == "quick" else 40, cap=60 if tier == "quick" else 400)
         eng.run(paths_binary=[], paths_json=[[("cpp", "b2n", 1), ("cpp", "n2b", 1)], [("cpp", "b2n", 3), ("cpp", "n2n", 1), ("cpp", "n2b", 3)]])
+        if pkg.namespace.startswith("Pat"):
+            pats = [p.name[1:].upper() for p in pkg.protocols]
+            eng.run_custom({"Q" + pt.lower(): shapes.pattern_executions(pt) for pt in pats}, [[("cpp", "b2n", 1), ("cpp", "n2b", 1)], [("cpp", "b2n", 2), ("cpp", "n2n", 1), ("cpp", "n2b", 2)]])
         chk.extra["packages"] = 1
         chk.extra["protocols"] = len(pr.steps)
     finally:
@@ -34,6 +37,7 @@ def main(tier):
     d = 1 if tier == "quick" else 2
     sh = [s for s in shapes.shapes(d, tier) if not shapes.has_vector_of_bool(s)]
     packed = shapes.pack(sh, "Pk")
+    packed.append((shapes.pattern_package(4 if tier == "quick" else 5)[0], []))
     chk.extra.update({"shapes": len(sh), "depth": d, "k": 1 if tier == "quick" else 2})
     roundtrip.run_packages(chk, packed, worker)
     chk.assumptions += ["arrays use the stand-in verif_ndarray.h (cpp.overrideArrayHeader); date text in C++ comes from the date.h stand-in: only its JSON kind (string) and round-trip identity are checked",
